@@ -60,6 +60,20 @@ func genAssign(t *rapid.T) Case {
 	return Case{Prog: p, Feat: patternFeats(f)}
 }
 
+// a module statement for a name that an enclosing scope binds to a module (pattern moduleAgain), on top of
+// the scopes profile and of the union profile; a sub-check of its own for the same reason
+var modAgainProfile = prog.Profile{Scopes: true, ModAgain: true, MaxDepth: 3, MaxStmts: 3}
+var modAgainUnionProfile = prog.Profile{Scopes: true, Control: true, Errors: true, ModAgain: true, MaxDepth: 3, MaxStmts: 3}
+
+func genModAgain(t *rapid.T) Case {
+	pr := modAgainProfile
+	if rapid.IntRange(0, 3).Draw(t, "union") == 0 {
+		pr = modAgainUnionProfile
+	}
+	p, f := prog.Generate(t, pr)
+	return Case{Prog: p, Feat: patternFeats(f)}
+}
+
 func genUnion(t *rapid.T) Case {
 	p, f := prog.Generate(t, unionProfile)
 	return Case{Prog: p, Feat: patternFeats(f)}
@@ -68,7 +82,7 @@ func genUnion(t *rapid.T) Case {
 func patternFeats(f map[string]int) map[string]int {
 	out := map[string]int{}
 	for k, n := range f {
-		if strings.HasPrefix(k, "cross_") || strings.HasPrefix(k, "binder_") || strings.HasPrefix(k, "closure_") || strings.HasPrefix(k, "assign_") || k == "self_name" || k == "scope_cross" {
+		if strings.HasPrefix(k, "cross_") || strings.HasPrefix(k, "binder_") || strings.HasPrefix(k, "closure_") || strings.HasPrefix(k, "assign_") || strings.HasPrefix(k, "modagain") || k == "self_name" || k == "scope_cross" {
 			out[k] = n
 		}
 	}
@@ -103,6 +117,10 @@ func oracle(c Case, o *h.Obs) *h.Fail {
 			// programs of the sub-check `assigns`: a signature of its own
 			clause = "assigned-name|" + clause
 		}
+		if c.Feat["modagain"] > 0 && (clause == "trace" || clause == "value" || clause == "bindings") {
+			// programs of the sub-check `modules`: a signature of its own
+			clause = "module-name-bound-further-out|" + clause
+		}
 		f := h.Failf("C04|"+clause, "program:\n%s\n%s", v.Src, v.Detail)
 		f.NoShrink = v.Clause == "no-termination"
 		return f
@@ -134,4 +152,6 @@ func TestC04(t *testing.T) {
 	h.Run(c, "assigns", c.N(3000, 30000), genAssign, oracle)
 	c.Rule("overlap: one function value (0-7 fixed parameters, with or without a variadic one; named or assigned literal) is called by 2-8 callers at the same time - go statements on closures, go statements on one shared worker function, or host goroutines running scripts in child scopes of the defining scope - each caller with its own argument values, 10-240 calls each, optionally with all callers meeting at a barrier before each call or all invocations meeting in mid-body, optionally calling itself once more with other arguments; the body copies its parameters into locals by var / plain assignment / from inside if, for-in, for, C-for, catch, finally, switch and a closure, and returns the observations as a list; the host compares each returned list with what that caller passed; non-trivial = every such run that completed; distinct by source text")
 	h.Run(c, "overlap", c.N(overlapQuick, overlapThorough), genOverlap, oracleOverlap)
+	c.Rule("modules: the same oracle over programs that contain the pattern moduleAgain (internal/prog/gen_modagain.go): a module M with a member ma (or a plain value M) is bound in the current scope; then a second `module M { var mb = v ... }` is executed in the same block, inside one of thirteen block forms (one or two levels), in a named function called twice (here and from inside a block), in a closure called from inside a block, or in a block inside the outer module's own body; the inner body reads a local of the declaring block / function, probes the outer module's member name and optionally assigns it; M.mb and M.ma are read inside the block, and afterwards M.ma, M.mb, M.getma() (a function member of the outer module), mb and the local are read or probed: the statement binds M in the current block only, its body runs in a child of that block, and afterwards M is what it was before")
+	h.Run(c, "modules", c.N(3000, 30000), genModAgain, oracle)
 }
